@@ -284,6 +284,60 @@ theorem witness_rejected (H : Hash) (cs : Bool) : footerCheck H cs witness = .fo
   have h1 : witness.length = 28 := by decide
   have h2 : byteAt witness (28 - 13) = 0 := by decide
   simp [h1, h2]
+
+/-! ### `is_valid` by itself (the checksum stage of `footerCheck`) -/
+
+/-- `footerCheck` as a chain of guards over the named parts of the file. -/
+theorem footerCheck_eq (H : Hash) (cs : Bool) (d : Bytes) :
+    footerCheck H cs d =
+      (if d.length < 13 then Out.io else
+        if hbOf d ≠ 8 then Out.format else
+        if d.length < 20 + hbOf d then Out.io else
+        if 8 < comparedOf d then Out.panic else
+        if (storedOf d).take (comparedOf d) ≠ ((H (hashedOf (footerOf d))).take 8).take (comparedOf d) then
+          (if hbOf d < 8 then Out.panic else Out.checksum) else
+        if !formatOk (footerOf d) then Out.format else
+        if cs && rppZero (footerOf d) then Out.format else
+        if cs && d.length != expectedSize (footerOf d) then Out.size else
+        Out.pass (byteAt (footerOf d) 8) (byteAt (footerOf d) 12) (byteAt (footerOf d) 14) (leNat (slice (footerOf d) 16 4))) := by
+  unfold footerCheck
+  rfl
+
+/-- with a full-size hash field (`footer_hash_bytes ≥ 8`, 8 stored bytes) `is_valid` is EQUALITY of the
+stored hash with `H(fields ‖ 0⁸)[..8]`. -/
+theorem isValid_iff (H : Hash) (ft : Bytes) (hl : ft.length = 28) (h8 : 8 ≤ byteAt (ft.take 20) 15) :
+    isValid H ft = true ↔ ft.drop 20 = (H (hashedOf (ft.take 20))).take 8 := by
+  unfold isValid
+  have hlen : (ft.drop 20).length = 8 := by simp [hl]
+  simp only [hlen, Nat.min_eq_left h8, List.take_take, Nat.min_self, beq_iff_eq]
+  rw [List.take_of_length_le (by omega)]
+
+/-- the `ChecksumMismatch` answer of `ArchiveIndex::parse` / `ChunkedArchiveIndex::open` is exactly
+`!footer.is_valid()` on the last 28 bytes. -/
+theorem checksum_iff_isValid (H : Hash) (cs : Bool) (d : Bytes) (h28 : 28 ≤ d.length) (h8 : hbOf d = 8) :
+    footerCheck H cs d = .checksum ↔ isValid H (d.drop (d.length - 28)) = false := by
+  rw [footerCheck_eq]
+  have e1 : footerOf d = (d.drop (d.length - 28)).take 20 := by
+    unfold footerOf slice; rw [h8]
+  have e2 : storedOf d = (d.drop (d.length - 28)).drop 20 := by
+    unfold storedOf; rw [h8, List.drop_drop]; congr 1; omega
+  have e3 : ((d.drop (d.length - 28)).drop 20).length = 8 := by
+    simp [List.length_drop]; omega
+  have e4 : min (storedOf d).length (byteAt (footerOf d) 15) = comparedOf d := by
+    unfold comparedOf; rw [h8, e2, e3]
+  unfold isValid
+  simp only []
+  rw [← e1, ← e2, e4]
+  have hc : ¬ 8 < comparedOf d := by unfold comparedOf; rw [h8]; omega
+  rw [if_neg (by omega), if_neg (by simp [h8]), if_neg (by omega), if_neg hc]
+  by_cases h4 : (storedOf d).take (comparedOf d) = ((H (hashedOf (footerOf d))).take 8).take (comparedOf d)
+  · rw [if_neg (by simpa using h4)]
+    simp only [h4, beq_self_eq_true]
+    repeat' split
+    all_goals simp
+  · rw [if_pos h4, if_neg (by omega)]
+    simp [h4]
+
 end Aidx
 
 namespace Upd
